@@ -105,6 +105,39 @@ def kind_of_annotation(ann: Optional[ast.AST]) -> Any:
     return None
 
 
+# ---- checked "order cannot reach the output" justifications (a small syntactic dataflow check)
+#
+#   sorted     the enumeration is passed through `sorted(..)` before anything sees it
+#   toset      the enumeration only feeds another set (set comprehension, `set(<genexpr>)`, or a loop whose
+#              body does nothing but `S.add/update/discard(..)` on set-typed names, `continue`, constant flags)
+#   reduction  the enumeration only feeds `any/all/len` or a loop that computes a constant flag /
+#              returns a constant (with `break`), with side-effect free tests
+#   keyonly    `id(x)` / `hash(x)` whose value is only used as a set/dict key, membership operand or in `==`
+#
+# "side-effect free" is decided syntactically and conservatively: calls only to an allowlist of builtins,
+# to an allowlist of read-only methods, or to functions of the same file that pass the same check
+# (`Scanner.pure_fn`); anything else makes the site NOT auto-justified (it then needs a reviewed row).
+AUTO_CLASSES = ("sorted", "toset", "reduction", "keyonly")
+PURE_BUILTINS = {"len", "isinstance", "issubclass", "getattr", "hasattr", "tuple", "list", "str", "int", "bool",
+                 "float", "any", "all", "id", "type", "set", "frozenset", "sorted", "min", "max", "abs", "repr",
+                 "dict", "zip", "enumerate", "range", "reversed", "callable", "cast", "iter", "hash", "sum"}
+PURE_METHODS = {"get", "items", "keys", "values", "startswith", "endswith", "consumers", "uses", "producer",
+                "lower", "upper", "strip", "split", "index", "count", "copy", "union", "intersection",
+                "difference", "issubset", "issuperset", "isdisjoint", "is_graph_output", "is_graph_input",
+                "is_initializer", "tolist", "numpy", "item", "format", "join", "as_int", "as_ints", "as_string"}
+SET_MUTATORS = {"add", "update", "discard"}
+LOCAL_MUTATORS = {"append", "extend", "add", "update", "discard", "insert", "setdefault", "pop", "remove", "clear"}
+
+
+def _names_stored(nodes) -> set:
+    out = set()
+    for n in nodes:
+        for sub in ast.walk(n):
+            if isinstance(sub, ast.Name) and isinstance(sub.ctx, (ast.Store, ast.Del)):
+                out.add(sub.id)
+    return out
+
+
 class _Scope:
     def __init__(self, parent: Optional["_Scope"] = None):
         self.parent = parent
@@ -120,7 +153,9 @@ class _Scope:
 
 
 class Scanner:
-    def __init__(self, path: Path, rel: str, registries: Optional[set[str]] = None):
+    def __init__(self, path: Path, rel: str, registries: Optional[set[str]] = None,
+                 extern_defs: Optional[dict] = None):
+        self.extern_defs = extern_defs or {}
         self.registries = set(registries or ())
         self.rel = rel
         self.file = Path(rel).name
@@ -134,6 +169,161 @@ class Scanner:
             self.module.kinds[r] = "registry"
         self.local_fns: set[str] = set()
         self._seen_iter_nodes: set[int] = set()
+        self.fn_defs: dict[str, list] = {}
+        self._pure_memo: dict[str, bool] = {}
+
+    # ---- side-effect freedom (syntactic, conservative)
+    def pure_fn(self, name: str) -> bool:
+        if name in self._pure_memo:
+            return self._pure_memo[name]
+        self._pure_memo[name] = False                      # recursion: pessimistic
+        defs = self.fn_defs.get(name) or self.extern_defs.get(name, [])
+        ok = bool(defs) and all(self._pure_def(d) for d in defs)
+        self._pure_memo[name] = ok
+        return ok
+
+    def _pure_def(self, d: ast.AST) -> bool:
+        params = {a.arg for a in list(d.args.posonlyargs) + list(d.args.args) + list(d.args.kwonlyargs)}
+        if d.args.vararg:
+            params.add(d.args.vararg.arg)
+        if d.args.kwarg:
+            params.add(d.args.kwarg.arg)
+        local = _names_stored(d.body) - params
+        for n in ast.walk(d):
+            if isinstance(n, (ast.Global, ast.Nonlocal, ast.Delete, ast.Yield, ast.YieldFrom, ast.Await)):
+                return False
+            if isinstance(n, (ast.Assign, ast.AugAssign, ast.AnnAssign)):
+                tg = n.targets if isinstance(n, ast.Assign) else [n.target]
+                for t in tg:
+                    for sub in ast.walk(t):
+                        if isinstance(sub, (ast.Attribute, ast.Subscript)) and isinstance(sub.ctx, ast.Store):
+                            base = sub.value
+                            if not (isinstance(base, ast.Name) and base.id in local):
+                                return False
+            if isinstance(n, ast.Call) and not self._pure_call(n, local):
+                return False
+        return True
+
+    def _pure_call(self, c: ast.Call, local: set) -> bool:
+        f = c.func
+        if isinstance(f, ast.Name):
+            return f.id in PURE_BUILTINS or f.id in local and False or self.pure_fn(f.id)
+        if isinstance(f, ast.Attribute):
+            if f.attr in PURE_METHODS:
+                return True
+            if f.attr in LOCAL_MUTATORS and isinstance(f.value, ast.Name) and f.value.id in local:
+                return True
+        return False
+
+    def pure_expr(self, e: Optional[ast.AST]) -> bool:
+        if e is None:
+            return True
+        for n in ast.walk(e):
+            if isinstance(n, (ast.NamedExpr, ast.Yield, ast.YieldFrom, ast.Await)):
+                return False
+            if isinstance(n, ast.Call) and not self._pure_call(n, set()):
+                return False
+        return True
+
+    def flow_loop(self, loop: ast.For, sc: _Scope, scope_body: list) -> str:
+        """'' | 'toset' | 'reduction' for a `for` loop over an unordered collection."""
+        if loop.orelse or not self.pure_expr(loop.iter):
+            return ""
+        eff = {"add": False, "exit": False, "bad": False}
+        temps: set = set()
+
+        def stmts(body):
+            for st in body:
+                if isinstance(st, (ast.Continue, ast.Pass)):
+                    continue
+                if isinstance(st, ast.Break):
+                    eff["exit"] = True
+                elif isinstance(st, ast.Return):
+                    if st.value is not None and not isinstance(st.value, ast.Constant):
+                        eff["bad"] = True
+                    eff["exit"] = True
+                elif isinstance(st, ast.If):
+                    if not self.pure_expr(st.test):
+                        eff["bad"] = True
+                    stmts(st.body)
+                    stmts(st.orelse)
+                elif isinstance(st, ast.For):
+                    if st.orelse or not self.pure_expr(st.iter):
+                        eff["bad"] = True
+                    temps.update(_names_stored([st.target]))
+                    stmts(st.body)
+                elif isinstance(st, ast.Expr) and isinstance(st.value, ast.Call) and \
+                        isinstance(st.value.func, ast.Attribute) and st.value.func.attr in SET_MUTATORS and \
+                        isinstance(st.value.func.value, ast.Name) and self.kind(st.value.func.value, sc) == "set" \
+                        and all(self.pure_expr(a) for a in st.value.args) and not st.value.keywords:
+                    eff["add"] = True
+                elif isinstance(st, ast.Assign) and all(isinstance(t, ast.Name) for t in st.targets):
+                    if isinstance(st.value, ast.Constant):
+                        continue                                   # constant flag
+                    if not self.pure_expr(st.value):
+                        eff["bad"] = True
+                    temps.update(t.id for t in st.targets)
+                else:
+                    eff["bad"] = True
+        stmts(loop.body)
+        temps.update(_names_stored([loop.target]))
+        if eff["bad"] or (eff["add"] and eff["exit"]):
+            return ""
+        # temporaries (and the loop variable) must not be read outside the loop
+        inside = {id(n) for n in ast.walk(loop)}
+        for st in scope_body:
+            for n in ast.walk(st):
+                if isinstance(n, ast.Name) and isinstance(n.ctx, ast.Load) and n.id in temps and id(n) not in inside:
+                    return ""
+        return "toset" if eff["add"] else "reduction"
+
+    def flow_comp(self, comp: ast.AST, parent: Optional[ast.AST]) -> str:
+        parts = [comp.elt] if not isinstance(comp, ast.DictComp) else [comp.key, comp.value]
+        for g in comp.generators:
+            parts += [g.iter] + list(g.ifs)
+        if not all(self.pure_expr(p) for p in parts):
+            return ""
+        if isinstance(comp, ast.SetComp):
+            return "toset"
+        if isinstance(parent, ast.Call) and isinstance(parent.func, ast.Name) and len(parent.args) == 1 \
+                and parent.args[0] is comp and not parent.keywords:
+            return {"any": "reduction", "all": "reduction", "len": "reduction", "set": "toset",
+                    "frozenset": "toset", "sorted": "sorted"}.get(parent.func.id, "")
+        return ""
+
+    def flow_key(self, call: ast.Call, parents: dict, scope_body: list) -> str:
+        """'keyonly' when the value of `id(..)`/`hash(..)` only ever serves as a key / membership operand."""
+        def key_use(n: ast.AST) -> bool:
+            p = parents.get(id(n))
+            if isinstance(p, ast.Compare) and all(isinstance(o, (ast.In, ast.NotIn, ast.Eq, ast.NotEq, ast.Is, ast.IsNot))
+                                                  for o in p.ops):
+                return True
+            if isinstance(p, ast.Subscript) and p.slice is n:
+                return True
+            if isinstance(p, ast.Call) and isinstance(p.func, ast.Attribute) and n in p.args and \
+                    p.func.attr in ("add", "discard", "get", "remove", "setdefault", "pop", "__contains__"):
+                return p.args[0] is n
+            if isinstance(p, ast.SetComp) and p.elt is n:
+                return True
+            if isinstance(p, ast.Set):
+                return True
+            if isinstance(p, ast.Dict) and n in p.keys:
+                return True
+            if isinstance(p, ast.DictComp) and p.key is n:
+                return True
+            return False
+        if key_use(call):
+            return "keyonly"
+        p = parents.get(id(call))
+        if isinstance(p, ast.Assign) and p.value is call and len(p.targets) == 1 and isinstance(p.targets[0], ast.Name):
+            name = p.targets[0].id
+            stores = [n for st in scope_body for n in ast.walk(st)
+                      if isinstance(n, ast.Name) and n.id == name and isinstance(n.ctx, ast.Store)]
+            loads = [n for st in scope_body for n in ast.walk(st)
+                     if isinstance(n, ast.Name) and n.id == name and isinstance(n.ctx, ast.Load)]
+            if len(stores) == 1 and loads and all(key_use(n) for n in loads):
+                return "keyonly"
+        return ""
 
     # ---- kinds of expressions
     def kind(self, e: Optional[ast.AST], sc: _Scope) -> Any:
@@ -210,6 +400,7 @@ class Scanner:
         for n in ast.walk(self.tree):
             if isinstance(n, (ast.FunctionDef, ast.AsyncFunctionDef)):
                 self.local_fns.add(n.name)
+                self.fn_defs.setdefault(n.name, []).append(n)
                 k = kind_of_annotation(n.returns)
                 if k is not None:
                     self.returns[n.name] = k
@@ -276,9 +467,11 @@ class Scanner:
         return None, wrap
 
     def add(self, fn: str, kind: str, iter_src: str, target: str, body_text: str,
-            at: Optional[ast.AST] = None, span: Optional[tuple] = None) -> None:
+            at: Optional[ast.AST] = None, span: Optional[tuple] = None, auto: str = "") -> None:
+        if "sorted" in kind.split("-"):
+            auto = "sorted"
         site = {"file": self.file, "fn": fn, "kind": kind, "iter": iter_src,
-                "target": target, "body": _h(body_text)}
+                "target": target, "body": _h(body_text), "auto": auto}
         self.sites.append(site)
         if span is not None:  # comprehension: from the enclosing statement's first line to its end
             self.lines.append((self.file, span[0], span[1], site))
@@ -300,13 +493,19 @@ class Scanner:
                     if not isinstance(c, ast.stmt):
                         for sub in self._walk_scope([c]):
                             stmts_of[id(sub)] = st
+        parents: dict[int, ast.AST] = {}
+        for top in body:
+            for p in ast.walk(top):
+                for c in ast.iter_child_nodes(p):
+                    parents[id(c)] = p
         for node in self._walk_scope(body):
             if isinstance(node, (ast.For, ast.AsyncFor)):
                 k, wrap = self._iter_root(node.iter, sc)
                 if k:
                     self._mark(node.iter)
                     self.add(fn, f"for-{k}" + ("-sorted" if "sorted" in wrap else ""), _src(node.iter),
-                             _src(node.target), _dump(node.body) + "#" + _dump(node.orelse), at=node.iter)
+                             _src(node.target), _dump(node.body) + "#" + _dump(node.orelse), at=node.iter,
+                             auto=self.flow_loop(node, sc, body) if isinstance(node, ast.For) and k != "registry" else "")
             elif isinstance(node, (ast.ListComp, ast.SetComp, ast.DictComp, ast.GeneratorExp)):
                 for g in node.generators:
                     k, wrap = self._iter_root(g.iter, sc)
@@ -316,7 +515,8 @@ class Scanner:
                                  ("-toset" if isinstance(node, ast.SetComp) else ""),
                                  _src(g.iter), _src(g.target), _dump(node), at=g.iter,
                                  span=(getattr(stmts_of.get(id(node)), "lineno", node.lineno),
-                                       getattr(node, "end_lineno", node.lineno)))
+                                       getattr(node, "end_lineno", node.lineno)),
+                                 auto=self.flow_comp(node, parents.get(id(node))) if k != "registry" else "")
         for node in self._walk_scope(body):
             if not isinstance(node, ast.Call) or id(node) in self._seen_iter_nodes:
                 continue
@@ -342,7 +542,7 @@ class Scanner:
                 continue
             callee = f.id if isinstance(f, ast.Name) else (f.attr if isinstance(f, ast.Attribute) else "")
             if isinstance(f, ast.Name) and callee in ("hash", "id") and node.args:
-                self.add(fn, f"{callee}-call", _src(node), "", ctx_text)
+                self.add(fn, f"{callee}-call", _src(node), "", ctx_text, auto=self.flow_key(node, parents, body))
                 continue
             if callee in HARMLESS_CALLEES or callee in self.local_fns or callee in (
                     "update", "add", "discard", "remove", "union", "intersection", "difference",
@@ -390,18 +590,22 @@ def scan(repo: Path) -> tuple[list[dict], list[dict], list[str]]:
     ctors: list[dict] = []
     missing: list[str] = []
     registries: set[str] = set()
+    extern: dict = {}
     for rel in FILES:  # first round: module-level registries (imported by the other files)
         p = repo / rel
         if p.exists():
             s0 = Scanner(p, rel)
             s0.run()
             registries |= {k for k, v in s0.module.kinds.items() if v == "registry"}
+            for st in s0.tree.body:          # module-level functions of the anchored files (purity across files)
+                if isinstance(st, ast.FunctionDef):
+                    extern.setdefault(st.name, []).append(st)
     for rel in FILES:
         p = repo / rel
         if not p.exists():
             missing.append(rel)
             continue
-        s = Scanner(p, rel, registries)
+        s = Scanner(p, rel, registries, extern)
         s.run()
         sites += s.sites
         ctors += s.ctors
